@@ -142,8 +142,14 @@ class LoopCtx:
 
 
 class LoopSpec:
-    def __init__(self, inv, mods=(), vars_kinds=None, note=""):
-        self.inv, self.mods, self.vars_kinds, self.note = inv, mods, vars_kinds or {}, note
+    """inv(L) -> [(name, formula)];  hints(L) -> instances of spec-function definitions (assumed wherever the
+    invariant is assumed or has to be shown)"""
+
+    def __init__(self, inv, mods=(), vars_kinds=None, note="", hints=None):
+        self.inv, self.mods, self.vars_kinds, self.note, self.hints = inv, mods, vars_kinds or {}, note, hints
+
+    def hint(self, L):
+        return list(self.hints(L)) if self.hints else []
 
 
 def assigned_names(stmts):
@@ -529,10 +535,11 @@ class Exec:
         pre_v, S_pre, out_pre = dict(p.env), p.S, p.out
 
         def ctx(path, i):
-            return LoopCtx(self, i, seq, path.env, path.S, path.out, pre_v, S_pre, out_pre, self.fnctx)
+            return LoopCtx(self, i, seq, path.env, path.S, path.out, pre_v, S_pre, out_pre, self.fnctx, path.extra)
 
         # INV0
         p0 = p.fork(label="loop%d:init" % o)
+        p0.assume(*spec.hint(ctx(p0, IntVal(0))))
         for name, f in spec.inv(ctx(p0, IntVal(0))):
             self.oblig(p0, "INV0", "loop%d/%s" % (o, name), f)
         # arbitrary iteration
@@ -544,8 +551,10 @@ class Exec:
             h.env.pop(n, None)
         self.havoc_state(h, spec)
         self.havoc_out(h, spec)
+        self.havoc_extra(h)
         h.assume(0 <= i, i < seq.n)
         h.assume(*[f for _, f in spec.inv(ctx(h, i))])
+        h.assume(*spec.hint(ctx(h, i)))
         h.extra["wit%d" % o] = i          # ghost witness: iteration index, for exits taken from inside the loop
         hint_env = {}
         self.loopstack.append({"breaks": [], "continues": []})
@@ -564,7 +573,9 @@ class Exec:
         self.havoc_vars(x, body_names, spec, hint_env)
         self.havoc_state(x, spec)
         self.havoc_out(x, spec)
+        self.havoc_extra(x)
         x.assume(*[f for _, f in spec.inv(ctx(x, seq.n))])
+        x.assume(*spec.hint(ctx(x, seq.n)))
         x.assume(seq.n >= 0)
         # loop target after the loop: last element if any iteration ran, unbound otherwise
         self.bind_after_loop(st.target, seq, x)
@@ -587,7 +598,7 @@ class Exec:
 
     def frame_obligs(self, e, h, spec, o):
         """fields of the state not declared in the loop's `mods` must be unchanged at the back-edge"""
-        if spec.mods == "all":
+        if spec.mods == "all" or e.S is h.S:
             return
         from .heap import RAW, GHOST, LOG
         for f in RAW + GHOST + LOG:
@@ -604,6 +615,9 @@ class Exec:
     def havoc_out(self, p, spec):
         pass
 
+    def havoc_extra(self, p):
+        pass
+
     def s_While(self, st, p):
         o, spec = self.loop_spec(st)
         names = assigned_names(st.body)
@@ -611,17 +625,20 @@ class Exec:
         k = Int(fresh("k"))   # number of completed iterations (ghost)
 
         def ctx(path, i):
-            return LoopCtx(self, i, None, path.env, path.S, path.out, pre_v, S_pre, out_pre, self.fnctx)
+            return LoopCtx(self, i, None, path.env, path.S, path.out, pre_v, S_pre, out_pre, self.fnctx, path.extra)
 
         p0 = p.fork(label="loop%d:init" % o)
+        p0.assume(*spec.hint(ctx(p0, IntVal(0))))
         for name, f in spec.inv(ctx(p0, IntVal(0))):
             self.oblig(p0, "INV0", "loop%d/%s" % (o, name), f)
         h = p.fork(label="loop%d:head" % o)
         self.havoc_vars(h, names, spec)
         self.havoc_state(h, spec)
         self.havoc_out(h, spec)
+        self.havoc_extra(h)
         h.assume(k >= 0)
         h.assume(*[f for _, f in spec.inv(ctx(h, k))])
+        h.assume(*spec.hint(ctx(h, k)))
         outs = []
         hint_env = {}
         for q, c in self.ev_truth(st.test, h):
@@ -835,7 +852,7 @@ class Exec:
         if l.k == "pystr" and isinstance(op, ast.Mod):
             # %-formatting of a message (exception text, warning): value is an opaque string; the operands
             # were evaluated (their side conditions are obligations), the text itself is not modelled here
-            yield p, V("msg", None)
+            yield p, V("fmt", (l.t, r))
             return
         yield from self.binop_other(op, l, r, p, e)
 
